@@ -1074,7 +1074,8 @@ class Eval:
             return ("lit", len(args[0][1]) == 0)
         # a crate-local function that did not exist when the rules were written (rules/known_functions.txt) is a helper extracted later:
         # it is transparent (inlined), so that extracting a helper leaves the templates unchanged
-        if target in self.facts.bodies and target not in known_functions() and self._helper_depth < 6 and target not in self._helper_stack:
+        if target in self.facts.bodies and target not in known_functions() and self._helper_depth < 6 and target not in self._helper_stack \
+                and target not in getattr(self, "opaque_helpers", ()):
             bs = self.facts.bodies[target]
             if len(bs) == 1 and len(bs[0].get("params", [])) == len(args):
                 self._helper_depth += 1
